@@ -603,10 +603,15 @@ fn execute_write_in_txn(
     }
     let prepared = prepare(cypher).map_err(|e| ApiError::from_query_message(&e.to_string()))?;
     let snapshot = db.snapshot();
-    let (_rows, write_count) = prepared
-        .execute_mixed(&snapshot, txn, params)
-        .map_err(|e| ApiError::from_query_message(&e.to_string()))?;
-    Ok(write_count)
+    // A statement that fails must leave nothing behind in the caller's transaction.
+    let savepoint = txn.savepoint();
+    match prepared.execute_mixed(&snapshot, txn, params) {
+        Ok((_rows, write_count)) => Ok(write_count),
+        Err(e) => {
+            txn.rollback_to(savepoint);
+            Err(ApiError::from_query_message(&e.to_string()))
+        }
+    }
 }
 
 fn stmt_execute_if_needed(stmt: &mut StmtHandle) -> ApiResult<()> {
